@@ -155,7 +155,8 @@ B("<b><i><u><s><em><p>x</b>y", '''
     <em>
       <p>
         <b>
-          "xy"
+          "x"
+        "y"
 ''')
 B("x</p>y", '''
 "x"
@@ -426,23 +427,20 @@ Tt("<head><noscript><p>x</noscript>y", '''
   <body>
     "y"
 ''', scripting=True)
-B("<noscript><p>x</noscript>y", '''
-<noscript>
-  <p>
-    "x"
-"y"
-''' if False else '''
-<noscript>
-  <p>
-    "x"
-"y"
-''') if False else None
 Tt("<body><noscript><p>x</noscript>y", '''
 <html>
   <head>
   <body>
     <noscript>
       <p>
+        "xy"
+''')
+Tt("<body><noscript><span>x</noscript>y", '''
+<html>
+  <head>
+  <body>
+    <noscript>
+      <span>
         "x"
     "y"
 ''')
@@ -607,16 +605,14 @@ B("<textarea>\nfoo</textarea>", '''
 <textarea>
   "foo"
 ''')
-B("<pre>\n\nx", '''
-<pre>
-  "
-x"
-''')
-B("<pre>x\ny", '''
-<pre>
-  "x
-y"
-''')
+RAW = [
+    ("<pre>\n\nx", '| <html>\n|   <head>\n|   <body>\n|     <pre>\n|       "\nx"'),
+    ("<pre>x\ny", '| <html>\n|   <head>\n|   <body>\n|     <pre>\n|       "x\ny"'),
+    ("<textarea>\n\n\nx", '| <html>\n|   <head>\n|   <body>\n|     <textarea>\n|       "\n\nx"'),
+    ("<pre>\n", '| <html>\n|   <head>\n|   <body>\n|     <pre>'),
+    ("<pre><b>\nx", '| <html>\n|   <head>\n|   <body>\n|     <pre>\n|       <b>\n|         "\nx"'),
+    ("<pre>&#10;x", '| <html>\n|   <head>\n|   <body>\n|     <pre>\n|       "x"'),
+]
 B("<listing>\nx", '''
 <listing>
   "x"
@@ -637,7 +633,13 @@ B("<div></span>x", '''
 ''')
 B("<p><div></p>x", '''
 <p>
-  <div>
+<div>
+  <p>
+  "x"
+''')
+B("<p><span></p>x", '''
+<p>
+  <span>
 "x"
 ''')
 B("<p>a<dialog>b", '''
@@ -999,7 +1001,8 @@ B("<table><form><tr><td><input></form></table><form>x", '''
     <tr>
       <td>
         <input>
-"x"
+<form>
+  "x"
 ''')
 B("<table><b>x</b>y", '''
 <b>
@@ -1048,12 +1051,19 @@ B("<table><tr><td><svg><desc><td>", '''
           <svg desc>
       <td>
 ''')
-B("<table><td></tbody></tr></caption></body></html></colgroup>x", '''
+B("<table><td></caption></body></html></colgroup></col>x", '''
 <table>
   <tbody>
     <tr>
       <td>
         "x"
+''')
+B("<table><td></tbody>x", '''
+"x"
+<table>
+  <tbody>
+    <tr>
+      <td>
 ''')
 B("<table><style>a</style><script>b</script>c", '''
 "c"
@@ -1361,7 +1371,8 @@ B("<b><svg><g>x</b>y", '''
 <b>
   <svg svg>
     <svg g>
-      "xy"
+      "x"
+"y"
 ''')
 B("<select><svg>x", '''
 <select>
@@ -1631,9 +1642,10 @@ TRACES = [
     ("<svg><title></p>x</title>", None, False, [], []),
     ("<div><svg><div></svg></div>", None, False, [], []),
     ("<svg><b></svg>", None, False, [], []),
-    ("<b></b>", None, False, [], ["dev:aaa-step1", "tree-error"]),
+    ("<!DOCTYPE html><b></b>", None, False, [], ["dev:aaa-step1", "tree-error"]),
     ("<a><b></a></b>", None, False, ["aaa:no-furthest-block"], []),
-    ("<b><i></b></i>", None, False, ["aaa:step-current-node", "dev:aaa-step1"], []),
+    ("<b><i></b></i>", None, False, ["aaa:not-in-stack"], ["aaa:step-current-node"]),
+    ("<b><b><b><b></b></b></b></b>x", None, False, ["aaa:step-current-node", "dev:aaa-step1"], []),
     ("<b><table><td></b>", None, False, ["aaa:no-formatting-element"], []),
     ("<b><marquee></b>", None, False, ["aaa:no-formatting-element"], ["aaa:not-in-scope"]),
     ("<a><table><a>", None, False, ["aaa:not-in-scope", "dev:aaa-not-in-scope"], []),
@@ -1647,7 +1659,8 @@ TRACES = [
     ("<p>x", None, False, ["tree-error"], []),       # no doctype
     ("<!DOCTYPE html><p>x</p>", None, False, [], ["tree-error"]),
     ("<!DOCTYPE html><title>x</title><p>x</p>", None, False, [], ["tree-error"]),
-    ("<svg><title><svg></title>x", None, False, ["dev:any-other-end-tag-ns"], []),
+    ("<svg><title><svg></title>x", None, False, [], ["dev:any-other-end-tag-ns"]),
+    ("<svg><title><span></title>x", None, False, ["dev:any-other-end-tag-ns"], []),
 ]
 
 
@@ -1670,6 +1683,11 @@ def main():
             print("FAIL input=%r context=%r scripting=%r" % (inp, ctx, scripting))
             print("  expected:\n" + exp)
             print("  got:\n" + got)
+    for (inp, exp) in RAW:
+        got = dump(run_case(inp, None, False).root)
+        if got != exp:
+            failures += 1
+            print("FAIL raw input=%r\n  expected:\n%s\n  got:\n%s" % (inp, exp, got))
     for (inp, q) in QUIRKS:
         r = T.parse_document(inp)
         if r.quirks_mode != q:
@@ -1688,7 +1706,7 @@ def main():
                 failures += 1
                 print("FAIL trace input=%r ctx=%r: unexpected %s" % (inp, ctx, t))
     print("expectations: %d trees, %d quirks, %d traces; failures: %d"
-          % (len(CASES), len(QUIRKS), len(TRACES), failures))
+          % (len(CASES) + len(RAW), len(QUIRKS), len(TRACES), failures))
 
     failures += robustness()
     print("TOTAL FAILURES: %d" % failures)
@@ -1779,7 +1797,8 @@ def robustness(n=20000):
             else:
                 r = T.parse_fragment(s, context=ctx)
             check_tree_invariants(r.root)
-            dump(r.root)
+            if len(s) < 30000:
+                dump(r.root)
         except Exception as e:   # noqa
             failures += 1
             print("DEEP FAIL %r...: %r" % (s[:30], e))
